@@ -70,7 +70,19 @@ def run_history(doc: str, ops: list[dict], *, predict: bool = True) -> list[Step
         st.i = i
         st.op = op
         st.fresh = fresh
-        st.before_live = src.rebuild()
+        st.pred = st.expected = st.dec_before = st.dec_out = st.model_before = None
+        st.exc_class = st.exc_msg = st.out = st.after_live = None
+        st.exc_mro = ()
+        try:
+            st.before_live = src.rebuild()
+        except Exception as exc:  # noqa: BLE001 - the document object can no longer be rendered
+            st.before_live = None
+            st.before = emitted
+            st.outcome = "rebuild_crash"
+            st.exc_class = type(exc).__name__
+            st.exc_msg = str(exc)[:200]
+            steps.append(st)
+            break
         st.before = emitted if fresh else st.before_live
         st.pred = st.expected = st.dec_before = st.dec_out = st.model_before = None
         st.exc_class = st.exc_msg = st.out = None
@@ -114,7 +126,12 @@ def facts_of(st: Step) -> dict:
     """Region facts of a step, used to attribute violations to known findings."""
     from .model import PathError, PathUnspecified, parse_npath
 
+    vc = None
+    if st.op.get("value"):
+        cs = [c[0] for c in reader.Doc(st.op["value"]).comments()]
+        vc = "line" if any(c.startswith("#") for c in cs) else ("block" if cs else None)
     f = {
+        "value_comment": vc,
         "op": st.op["op"],
         "mode": "fresh" if st.fresh else "live",
         "pred": st.pred[0] if st.pred else None,
@@ -164,8 +181,18 @@ def snapshot_of(dec: reader.Decoded):
 # ---------------------------------------------------------------------------
 
 
+def crash_violations(prefix: str, steps: list[Step]) -> list[Violation]:
+    out = []
+    for st in steps:
+        if st.outcome == "rebuild_crash":
+            out.append(Violation(prefix + ".rebuild_crash", "after the preceding operations the document object cannot be rebuilt any more: %s: %s" % (st.exc_class, st.exc_msg), st.i,
+                                 {"op": st.op["op"], "mode": "live", "exc": st.exc_class}))
+    return out
+
+
 def oracle_c05(steps: list[Step]) -> list[Violation]:
-    out: list[Violation] = []
+    out: list[Violation] = crash_violations("C05", steps)
+    steps = [st for st in steps if st.outcome != "rebuild_crash"]
     for st in steps:
         f = facts_of(st)
         if st.dec_before.error:
@@ -247,7 +274,8 @@ def oracle_c06(doc: str, steps: list[Step], *, check_start: bool = True) -> list
 
 
 def oracle_c08(doc: str, ops: list[dict], steps: list[Step]) -> list[Violation]:
-    out: list[Violation] = []
+    out: list[Violation] = crash_violations("C08", steps)
+    steps = [st for st in steps if st.outcome != "rebuild_crash"]
     any_failed = False
     for st in steps:
         f = facts_of(st)
@@ -382,7 +410,10 @@ def oracle_c09(steps: list[Step], counters: dict | None = None) -> list[Violatio
     def bump(k):
         counters[k] = counters.get(k, 0) + 1
 
+    out.extend(crash_violations("C09", steps))
     for st in steps:
+        if st.outcome == "rebuild_crash":
+            continue
         f = facts_of(st)
         if not f["depth"]:
             continue
@@ -494,8 +525,9 @@ def oracle_c11(steps: list[Step], counters: dict | None = None) -> list[Violatio
     def bump(k):
         counters[k] = counters.get(k, 0) + 1
 
+    out.extend(crash_violations("C11", steps))
     for st in steps:
-        if st.op["op"] not in ("set", "assign"):
+        if st.outcome == "rebuild_crash" or st.op["op"] not in ("set", "assign"):
             continue
         try:
             depth, segs = parse_npath(st.op["path"])
